@@ -4,74 +4,138 @@
 (* (recorded with strace in a child process) against FsWrite.  One history *)
 (* per SetValues call:                                                     *)
 (*   Reset                                                                 *)
-(*   FsBegin old new        content (bytes) before, and after the call     *)
-(*                          returned                                       *)
-(*   Open name fd creat excl trunc app | Write fd data | Pwrite fd data off*)
-(*   | Lseek fd off | Ftruncate fd len | Fsync fd | Close fd               *)
-(*   | Rename from to | Unlink name     the calls on the directory of the  *)
-(*                          configuration file, in order, successful ones  *)
+(*   FsBegin old new file links                                            *)
+(*                          content (bytes) before, and after the call     *)
+(*                          returned; `file` = the directory entry that    *)
+(*                          holds the content; `links` = the symbolic      *)
+(*                          links of the layout, <<entry, entry it points  *)
+(*                          to>> ("conf" is the entry the configuration    *)
+(*                          path names: the file itself or a link)         *)
+(*   Open name fd creat excl trunc app nofollow | Write fd data            *)
+(*   | Pwrite fd data off | Lseek fd off | Ftruncate fd len | Fsync fd     *)
+(*   | Close fd | Rename from to | Unlink name | Symlink name to           *)
+(*   | Link from to         the calls on the directories of the layout, in *)
+(*                          order, successful ones.  Entries are named     *)
+(*                          WITHOUT following a symbolic link in the last  *)
+(*                          path component (the harness resolves the       *)
+(*                          directory part); open follows it here.         *)
 (*   FsEnd                  the call returned                              *)
-(* AtomicOnDisk is evaluated on the state after EVERY call: every system   *)
-(* call boundary is an instant at which the process could stop.  A write   *)
-(* on the inode the name refers to is additionally judged cut short at     *)
-(* three places (WriteTornOK): write(2) is not atomic against a crash.     *)
+(* A call this module has no action for (Truncate by path, ...) stops the  *)
+(* validation: such a call is never part of an atomic replacement.         *)
+(* AtomicOnDisk is evaluated -- on the entry the configuration path leads  *)
+(* to through the symbolic links as they are at that instant, i.e. on what *)
+(* a reader opening the configuration path gets -- on the state after      *)
+(* EVERY call: every system call boundary is an instant at which the       *)
+(* process could stop.  A write on the inode that entry refers to is       *)
+(* additionally judged cut short at three places (WriteTornAt): write(2)   *)
+(* is not atomic against a crash.                                          *)
 (***************************************************************************)
 EXTENDS FsWrite, TraceLib
 
-VARIABLE l
-tvars == <<fsvars, l>>
+VARIABLES l,
+          lnk,     \* symbolic links: entry -> entry it points to
+          names0   \* the entries that existed when the write-back began
+tvars == <<fsvars, l, lnk, names0>>
 
-TraceInit == FsInit(<<>>) /\ l = 1 /\ HwmInit
+TraceInit == FsInit(<<>>) /\ l = 1 /\ lnk = <<>> /\ names0 = {Conf} /\ HwmInit
 
 Step(e) == IsEv(l, e) /\ l' = l + 1
 
+\* follow symbolic links (at most 8, as many as a layout of the harness can have; a longer
+\* chain or a loop resolves to a name that does not exist)
+RECURSIVE Follow(_, _, _)
+Follow(lk, n, fuel) == IF n \in DOMAIN lk THEN (IF fuel = 0 THEN "(loop)" ELSE Follow(lk, lk[n], fuel - 1)) ELSE n
+Res(n) == Follow(lnk, n, 8)
+\* what a reader opening the configuration path gets
+Target == Res(Conf)
+Names == DOMAIN dir \cup DOMAIN lnk
+
+Pairs(q) == [k \in {q[i][1] : i \in 1..Len(q)} |-> (CHOOSE p \in {q[i] : i \in 1..Len(q)} : p[1] = k)[2]]
+
 TraceReset == /\ Step("Reset")
               /\ dir' = (Conf :> 1) /\ data' = << <<>> >> /\ mt' = << <<0, 0>> >> /\ fdt' = <<>>
-              /\ sec' = 0 /\ modn' = 1 /\ w' = Idle
+              /\ sec' = 0 /\ modn' = 1 /\ w' = Idle /\ lnk' = <<>> /\ names0' = {Conf}
 
 TraceBegin == /\ Step("FsBegin")
               /\ w.pc = "idle"
               /\ LET e == Trace[l] IN
-                   /\ dir' = (Conf :> 1) /\ data' = <<e.old>> /\ mt' = << <<0, 0>> >> /\ fdt' = <<>>
+                   /\ dir' = (e.file :> 1) /\ data' = <<e.old>> /\ mt' = << <<0, 0>> >> /\ fdt' = <<>>
+                   /\ lnk' = Pairs(e.links)
+                   /\ names0' = {e.file} \cup DOMAIN Pairs(e.links)
+                   /\ Follow(Pairs(e.links), Conf, 8) = e.file       \* (harness obligation: the path leads to the file)
                    /\ w' = [pc |-> "run", old |-> e.old, new |-> e.new, cut |-> 0]
               /\ UNCHANGED <<sec, modn>>
 
 Running == w.pc = "run"
+Keep == UNCHANGED <<lnk, names0>>
 
-TraceOpen == /\ Step("Open") /\ Running
-             /\ LET e == Trace[l] IN SysOpen(e.name, e.fd, e.creat, e.excl, e.trunc, e.app)
-TraceWrite == /\ Step("Write") /\ Running
+\* open(2) follows a symbolic link in the last component unless O_NOFOLLOW (then it fails on a
+\* link) or O_CREAT|O_EXCL (then it fails on any existing entry)
+TraceOpen == /\ Step("Open") /\ Running /\ Keep
+             /\ LET e == Trace[l] IN
+                  /\ (e.nofollow \/ (e.creat /\ e.excl)) => e.name \notin DOMAIN lnk
+                  /\ SysOpen(Res(e.name), e.fd, e.creat, e.excl, e.trunc, e.app)
+TraceWrite == /\ Step("Write") /\ Running /\ Keep
               /\ LET e == Trace[l] IN
                    /\ SysWrite(e.fd, e.data)
-                   /\ WriteTornOK(e.fd, IF fdt[e.fd].app THEN Len(data[fdt[e.fd].ino]) ELSE fdt[e.fd].pos, e.data)
-TracePwrite == /\ Step("Pwrite") /\ Running
+                   /\ WriteTornAt(Target, e.fd, IF fdt[e.fd].app THEN Len(data[fdt[e.fd].ino]) ELSE fdt[e.fd].pos, e.data)
+TracePwrite == /\ Step("Pwrite") /\ Running /\ Keep
                /\ LET e == Trace[l] IN
                     /\ SysPwrite(e.fd, e.data, e.off)
-                    /\ WriteTornOK(e.fd, e.off, e.data)
-TraceLseek == /\ Step("Lseek") /\ Running
+                    /\ WriteTornAt(Target, e.fd, e.off, e.data)
+TraceLseek == /\ Step("Lseek") /\ Running /\ Keep
               /\ LET e == Trace[l] IN SysLseek(e.fd, e.off)
-TraceFtruncate == /\ Step("Ftruncate") /\ Running
+TraceFtruncate == /\ Step("Ftruncate") /\ Running /\ Keep
                   /\ LET e == Trace[l] IN SysFtruncate(e.fd, e.len)
-TraceFsync == /\ Step("Fsync") /\ Running
+TraceFsync == /\ Step("Fsync") /\ Running /\ Keep
               /\ LET e == Trace[l] IN SysFsync(e.fd)
-TraceClose == /\ Step("Close") /\ Running
+TraceClose == /\ Step("Close") /\ Running /\ Keep
               /\ LET e == Trace[l] IN SysClose(e.fd)
-TraceRename == /\ Step("Rename") /\ Running
-               /\ LET e == Trace[l] IN SysRename(e.from, e.to)
-TraceUnlink == /\ Step("Unlink") /\ Running
-               /\ LET e == Trace[l] IN SysUnlink(e.name)
 
-\* the call returned: the new content is installed and no temporary name is left behind
-TraceEnd == /\ Step("FsEnd") /\ Running
-            /\ Exists(Conf) /\ Content(Conf) = w.new
-            /\ DOMAIN dir = {Conf}
+\* rename(2), unlink(2) act on the entry itself, also when it is a symbolic link
+TraceRename ==
+  /\ Step("Rename") /\ Running /\ names0' = names0
+  /\ LET e == Trace[l] IN
+       IF e.from \in DOMAIN lnk
+         THEN /\ lnk' = [x \in (DOMAIN lnk \ {e.from}) \cup {e.to} |-> IF x = e.to THEN lnk[e.from] ELSE lnk[x]]
+              /\ dir' = Restrict(dir, DOMAIN dir \ {e.to})
+              /\ UNCHANGED <<data, mt, fdt, sec, modn, w>>
+         ELSE /\ SysRename(e.from, e.to)
+              /\ lnk' = Restrict(lnk, DOMAIN lnk \ {e.to})
+TraceUnlink ==
+  /\ Step("Unlink") /\ Running /\ names0' = names0
+  /\ LET e == Trace[l] IN
+       IF e.name \in DOMAIN lnk
+         THEN /\ lnk' = Restrict(lnk, DOMAIN lnk \ {e.name})
+              /\ UNCHANGED fsvars
+         ELSE /\ SysUnlink(e.name)
+              /\ lnk' = lnk
+TraceSymlink ==
+  /\ Step("Symlink") /\ Running /\ names0' = names0
+  /\ LET e == Trace[l] IN
+       /\ e.name \notin Names
+       /\ lnk' = (e.name :> e.to) @@ lnk
+  /\ UNCHANGED fsvars
+\* link(2): a second name for the inode
+TraceLink ==
+  /\ Step("Link") /\ Running /\ Keep
+  /\ LET e == Trace[l] IN
+       /\ Exists(e.from) /\ e.to \notin Names
+       /\ dir' = (e.to :> dir[e.from]) @@ dir
+  /\ UNCHANGED <<data, mt, fdt, sec, modn, w>>
+
+\* the call returned: a reader of the configuration path gets the new content and no
+\* temporary name is left behind (the entries are those that were there before)
+TraceEnd == /\ Step("FsEnd") /\ Running /\ Keep
+            /\ Exists(Target) /\ Content(Target) = w.new
+            /\ Names = names0
             /\ w' = Idle
             /\ UNCHANGED <<dir, data, mt, fdt, sec, modn>>
 
-InvAll == AtomicOnDisk
+InvAll == AtomicAt(Target)
 
 TraceNext == (TraceReset \/ TraceBegin \/ TraceOpen \/ TraceWrite \/ TracePwrite \/ TraceLseek \/ TraceFtruncate
-              \/ TraceFsync \/ TraceClose \/ TraceRename \/ TraceUnlink \/ TraceEnd) /\ InvAll'
+              \/ TraceFsync \/ TraceClose \/ TraceRename \/ TraceUnlink \/ TraceSymlink \/ TraceLink \/ TraceEnd) /\ InvAll'
 
 TraceSpec == TraceInit /\ [][TraceNext]_tvars
 
